@@ -35,18 +35,18 @@ Definition in_size_lang (s : str) : bool :=
 
 (* value denoted by a number string *)
 Fixpoint digits_q (s : str) (acc : Q) : Q :=
-  match s with [] => acc | c :: t => digits_q t (acc * 10 + inject_Z (c - 48)) end.
+  match s with [] => acc | c :: t => digits_q t (acc * 10 + inject_Z (c - 48))%Q end.
 Fixpoint frac_q (s : str) (scale : Q) : Q :=
-  match s with [] => 0 | c :: t => inject_Z (c - 48) * scale + frac_q t (scale / 10) end.
+  match s with [] => 0%Q | c :: t => (inject_Z (c - 48) * scale + frac_q t (scale / 10))%Q end.
 Definition number_q (s : str) : Q :=
   match split_ch 46 s with
-  | [a] => digits_q a 0
-  | [a; b] => digits_q a 0 + frac_q b (1 # 10)
-  | _ => 0
+  | [a] => digits_q a 0%Q
+  | [a; b] => (digits_q a 0 + frac_q b (1 # 10))%Q
+  | _ => 0%Q
   end.
 
 Definition spec_parse (s : str) : option (Q * unit_) :=
-  if str_eqb s (lit "0") then Some (0, PX)
+  if str_eqb s (lit "0") then Some (0%Q, PX)
   else match spec_split s with
        | Some (num, u) => Some (number_q num, u)
        | None => None
@@ -54,7 +54,7 @@ Definition spec_parse (s : str) : option (Q * unit_) :=
 
 (* relative closeness for binary64 vs exact decimal: |a-b| <= 1e-9 * max(1,|b|) *)
 Definition q_rel_close (a b : Q) : bool :=
-  Qle_bool (Qabs (a - b)) ((1 # 1000000000) * (if Qle_bool (Qabs b) 1 then 1 else Qabs b)).
+  Qle_bool (Qabs (a - b)%Q) ((1 # 1000000000) * (if Qle_bool (Qabs b) 1%Q then 1%Q else Qabs b))%Q.
 
 (* ok_parse: accepted exactly on the language, with the denoted value and unit; everything else is the syntax error *)
 Definition ok_parse (s : str) (obs : result (Q * unit_)) : bool :=
@@ -78,7 +78,7 @@ Definition canonical_number (s : str) : bool :=
 Definition ok_print (v : Q) (u : unit_) (printed : str) : bool :=
   match spec_split printed with
   | Some (num, u') =>
-      unit_eqb u u' && canonical_number num && Qle_bool (Qabs (number_q num - v)) (1 # 200)
+      unit_eqb u u' && canonical_number num && Qle_bool (Qabs (number_q num - v)%Q) (1 # 200)%Q
   | None => false
   end.
 
@@ -118,17 +118,17 @@ Definition spec_pct (a : size) (horizontal : bool) (dim : option Q) : option Q :
   match s_unit a with
   | PCT => Some (s_val a)
   | CELL => match dim with
-            | Some _ => Some (s_val a * 100 / (if horizontal then 32 else 15))
+            | Some _ => Some (s_val a * 100 / (if horizontal then 32 else 15))%Q
             | None => None
             end
   | u => match dim with
-         | Some d => let px := match u with EM => s_val a * 16 | PT => s_val a * (4 # 3) | _ => s_val a end in
-                     Some (px * 100 / d)
+         | Some d => let px := (match u with EM => s_val a * 16 | PT => s_val a * (4 # 3) | _ => s_val a end)%Q in
+                     Some (px * 100 / d)%Q
          | None => None
          end
   end.
 
-Definition q_close9 (a b : Q) : bool := Qle_bool (Qabs (a - b)) (1 # 1000000000).
+Definition q_close9 (a b : Q) : bool := Qle_bool (Qabs (a - b)%Q) (1 # 1000000000)%Q.
 
 (* expected outcome for one size on one axis: Some pct, or None = must be refused *)
 Definition ok_size_pct (a : size) (horizontal : bool) (dim : option Q) (obs : result size) : bool :=
@@ -138,6 +138,7 @@ Definition ok_size_pct (a : size) (horizontal : bool) (dim : option Q) (obs : re
   | _, _ => false
   end.
 
+Local Open Scope Q_scope.
 (* ---- C13: fit to screen (percent layouts, origin inside the safe area) ----------------------- *)
 Definition in_safe_area (o : point) : bool :=
   unit_eqb (s_unit (p_x o)) PCT && unit_eqb (s_unit (p_y o)) PCT
@@ -183,6 +184,7 @@ Definition ok_fit (l : layout) (obs : result layout) : bool :=
   | None => match obs with Ok r => layout_eqb l r | Err _ => false end
   end.
 
+Local Close Scope Q_scope.
 (* ---- C13: a whole layout: every length on its own axis, or refused --------------------------- *)
 Definition sizes_axes (l : layout) : list (size * bool) :=
   (match l_origin l with Some p => [(p_x p, true); (p_y p, false)] | None => [] end)
